@@ -440,6 +440,11 @@ int uv_run(uv_loop_t* loop, uv_run_mode mode) {
   if (mode == UV_RUN_DEFAULT && r != 0 && loop->stop_flag == 0) {
     uv__update_time(loop);
     uv__run_timers(loop);
+    /* A timer callback that calls uv_stop() makes us skip the loop below:
+     * report the liveness as it is now, not as it was before the timers ran.
+     */
+    if (loop->stop_flag != 0)
+      r = uv__loop_alive(loop);
   }
 
   while (r != 0 && loop->stop_flag == 0) {
